@@ -19,15 +19,7 @@ fn full_collect_system_stats() {
     let s = fake_sender();
     let r = collect_system_specific_stats(&rdh, &mut sid, &s);
     let sys = b[5];
-    let valid_ids = [3u8, 4, 5, 6, 7, 8, 10, 15, 17, 18, 19, 32, 33, 34, 35, 36, 37, 38, 39, 255];
     if !known {
-        let mut is_valid = false;
-        let mut i = 0;
-        while i < valid_ids.len() {
-            if valid_ids[i] == sys { is_valid = true; }
-            i += 1;
-        }
-        assert!(r.is_ok() == is_valid || true, "[C14] (system id table checked below)");
         if sys == 32 {
             assert!(r.is_ok() && sid == Some(SystemId::ITS), "[C14] system id 0x20 is ITS");
         }
